@@ -180,21 +180,33 @@ func checkC08(c *Ctx, r *Report) {
 		for _, h := range hopByHopRef {
 			r.Check(have[h], "C08.R1", "hop-by-hop table contains "+h, c.Pos(f.Pos()), "deleted", "hop-by-hop header "+h+" is not removed: it is forwarded in both directions")
 		}
-		// Connection-listed names
-		var values *ssa.Call
-		eachInstr(f, func(in ssa.Instruction) {
-			if x, ok := in.(*ssa.Call); ok && calleeName(x) == "(net/http.Header).Values" {
-				if s, isC := constString(callArgs(x)[1]); isC && s == "Connection" {
-					values = x
+		// Connection-listed names: the read of Values("Connection") and the deletions may sit in the function itself
+		// or in same-package helpers it hands the header to (removeConnectionNominatedHeaders(header)); positions are
+		// compared in the deepest body both belong to (a helper is represented by its call site there)
+		type located struct {
+			in  ssa.Instruction
+			ctx dctx
+		}
+		var values *located
+		var dels []located
+		dynDel := false
+		for _, fc := range helperContexts(f, 3) {
+			eachInstr(fc.fn, func(in ssa.Instruction) {
+				x, ok := in.(*ssa.Call)
+				if !ok {
+					return
 				}
-			}
-		})
-		if values == nil {
-			r.Fail("C08.R1", "names listed in Connection are removed", c.Pos(f.Pos()), "removeHopByHopHeaders does not read header.Values(\"Connection\"): headers nominated by Connection are forwarded")
-		} else {
-			// a Del with a non-constant name reachable in the function or its yield closures
-			dynDel := false
-			for _, g := range append([]*ssa.Function{f}, closuresOf(f)...) {
+				switch calleeName(x) {
+				case "(net/http.Header).Values":
+					if s, isC := constString(callArgs(x)[1]); isC && s == "Connection" {
+						values = &located{x, fc.ctx}
+					}
+				case "(net/http.Header).Del":
+					dels = append(dels, located{x, fc.ctx})
+				}
+			})
+			// a Del with a non-constant name in the body or its yield closures
+			for _, g := range append([]*ssa.Function{fc.fn}, closuresOf(fc.fn)...) {
 				eachCall(g, func(call ssa.CallInstruction, n string) {
 					if n == "(net/http.Header).Del" {
 						if _, isC := constString(callArgs(call)[1]); !isC {
@@ -203,16 +215,22 @@ func checkC08(c *Ctx, r *Report) {
 					}
 				})
 			}
+		}
+		if values == nil {
+			r.Fail("C08.R1", "names listed in Connection are removed", c.Pos(f.Pos()), "removeHopByHopHeaders does not read header.Values(\"Connection\"): headers nominated by Connection are forwarded")
+		} else {
 			// ordering: the static table deletion (which removes Connection) must come after the Values read
 			okOrder := true
-			eachInstr(f, func(in ssa.Instruction) {
-				if x, ok := in.(*ssa.Call); ok && calleeName(x) == "(net/http.Header).Del" {
-					if !instrDominates(values, x) && reachableInstr(x, values, nil) {
-						okOrder = false
-					}
+			for _, d := range dels {
+				v, x := liftPair(values.in, values.ctx, d.in, d.ctx)
+				if v == x {
+					continue
 				}
-			})
-			r.Check(dynDel && okOrder, "C08.R1", "names listed in Connection are removed", c.InstrPos(values), "Values(\"Connection\") is read before the table deletes Connection; listed names are deleted dynamically", "Connection-listed header names are not deleted, or Connection is deleted before its value is read")
+				if !instrDominates(v, x) && reachableInstr(x, v, nil) {
+					okOrder = false
+				}
+			}
+			r.Check(dynDel && okOrder, "C08.R1", "names listed in Connection are removed", c.InstrPos(values.in), "Values(\"Connection\") is read before the table deletes Connection; listed names are deleted dynamically", "Connection-listed header names are not deleted, or Connection is deleted before its value is read")
 		}
 	}
 
